@@ -18,6 +18,7 @@ import (
 	"google.golang.org/grpc/status"
 	"google.golang.org/protobuf/proto"
 	"google.golang.org/protobuf/types/known/durationpb"
+	"google.golang.org/protobuf/types/known/anypb"
 	"google.golang.org/protobuf/types/known/emptypb"
 )
 
@@ -364,7 +365,7 @@ func (wa *workerActor) chooseState(req *remoteworker.SynchronizeRequest) *remote
 			return executingState(pick(t, w.actions).pb, nil)
 		case 2:
 			w.k.FaultsFired["worker-no-state"]++
-			return nil
+			return wa.malformedState()
 		case 3:
 			req.PreferBeingIdle = true
 			return idle
@@ -386,7 +387,7 @@ func (wa *workerActor) chooseState(req *remoteworker.SynchronizeRequest) *remote
 	case 5:
 		// Malformed request while executing: no current state at all.
 		w.k.FaultsFired["worker-no-state"]++
-		return nil
+		return wa.malformedState()
 	case 0:
 		return executingState(d, nil) // progress update
 	case 1:
@@ -404,6 +405,22 @@ func (wa *workerActor) chooseState(req *remoteworker.SynchronizeRequest) *remote
 		return executingState(d, wa.completion(false))
 	}
 	return idle
+}
+
+// malformedState: the three shapes of a request the scheduler must reject
+// with INVALID_ARGUMENT after it re-armed the worker's expiry: no current
+// state, a current state that is neither idle nor executing, and an executing
+// state that names no action.
+func (wa *workerActor) malformedState() *remoteworker.CurrentState {
+	switch wa.w.t.Choice(3) {
+	case 1:
+		wa.w.k.Probe("worker-sends-unknown-state")
+		return &remoteworker.CurrentState{}
+	case 2:
+		wa.w.k.Probe("worker-sends-executing-without-digest")
+		return &remoteworker.CurrentState{WorkerState: &remoteworker.CurrentState_Executing_{Executing: &remoteworker.CurrentState_Executing{ExecutionState: &remoteworker.CurrentState_Executing_Started{Started: &emptypb.Empty{}}}}}
+	}
+	return nil
 }
 
 func executingState(d *remoteexecution.Digest, completed *remoteexecution.ExecuteResponse) *remoteworker.CurrentState {
@@ -533,7 +550,7 @@ func (o *operatorActor) loop() {
 		case 3:
 			pattern = map[string]string{"host": "worker0", "rack": "r2"}
 		}
-		kind := t.Weighted([]int{3, 1, 3, 3, 2, 2, 2, 2, 2, 1, 1, 1, 2})
+		kind := t.Weighted([]int{3, 1, 3, 3, 2, 2, 2, 2, 2, 1, 1, 1, 2, 4, 1})
 		if w.faultFree && (kind < 2 || kind == 4) && w.prop == "C04" {
 			// No kills or terminations in the policy check; drains stay
 			// (a drained worker must get nothing, an undrained one must be
@@ -626,6 +643,32 @@ func (o *operatorActor) loop() {
 			if err == nil {
 				_, err = w.bq.RemoveDrain(o.ctx, &buildqueuestate.AddOrRemoveDrainRequest{SizeClassQueueName: qn, WorkerIdPattern: pattern})
 			}
+		case 13:
+			desc, err = o.inspectDeep(qn)
+		case 14:
+			// A configuration reload gone wrong: a predeclared queue is
+			// registered again (under its own size classes or others), or
+			// with a malformed list of size classes. All of it must be
+			// refused and leave the queues as they are.
+			desc = "RegisterPredeclaredPlatformQueue again"
+			if !q.predeclared {
+				break
+			}
+			scs := q.sizeClasses
+			switch t.Choice(4) {
+			case 1:
+				scs = []uint32{1, 2, 4}
+			case 2:
+				scs = []uint32{4, 2}
+			case 3:
+				scs = nil
+			}
+			desc = fmt.Sprintf("RegisterPredeclaredPlatformQueue again %q %v", q.prefix, scs)
+			err = w.bq.RegisterPredeclaredPlatformQueue(mustInstanceName(q.prefix), q.platform, q.stickiness, q.maxBG, q.bgPriority, scs)
+			if err == nil {
+				w.violate("C05/duplicate-registration-accepted", fmt.Sprintf("registering the predeclared platform queue %q %s a second time (size classes %v) succeeded; the queue that workers and clients are using would be replaced", q.prefix, q.key.GetPlatformString(), scs))
+			}
+			w.k.Probe("operator-registers-queue-again")
 		case 11:
 			desc = "ListInvocationChildren(ALL)"
 			_, err = w.bq.ListInvocationChildren(o.ctx, &buildqueuestate.ListInvocationChildrenRequest{InvocationName: &buildqueuestate.InvocationName{SizeClassQueueName: qn}, Filter: buildqueuestate.ListInvocationChildrenRequest_ALL})
@@ -636,4 +679,113 @@ func (o *operatorActor) loop() {
 		w.k.Yield("o-ret")
 		o.cancel()
 	}
+}
+
+// inspectDeep is what an operator clicking through bb_scheduler's web pages
+// does: descend into the invocation tree of a size class queue through the
+// names the listings return, and list queued operations, executing and idle
+// workers of a nested invocation page by page; look up single operations;
+// list operations filtered by invocation or stage. The listings of nested
+// invocations sort those invocations' heaps in place, so they are part of the
+// workload of every scheduler property, not only an observation channel.
+func (o *operatorActor) inspectDeep(qn *buildqueuestate.SizeClassQueueName) (string, error) {
+	w := o.w
+	t := w.t
+	name := &buildqueuestate.InvocationName{SizeClassQueueName: qn}
+	desc := "inspect"
+	// Descend up to three levels, each level one ListInvocationChildren call.
+	for depth := 0; depth < 3; depth++ {
+		filter := pick(t, []buildqueuestate.ListInvocationChildrenRequest_Filter{buildqueuestate.ListInvocationChildrenRequest_ALL, buildqueuestate.ListInvocationChildrenRequest_ACTIVE, buildqueuestate.ListInvocationChildrenRequest_QUEUED})
+		lr, err := w.bq.ListInvocationChildren(o.ctx, &buildqueuestate.ListInvocationChildrenRequest{InvocationName: name, Filter: filter})
+		desc += fmt.Sprintf(" children(depth=%d,%v)=%d", depth, filter, len(lr.GetChildren()))
+		if err != nil {
+			return desc, err
+		}
+		if len(lr.Children) == 0 || t.Bool(1, 4) {
+			break
+		}
+		w.k.Yield("o-inspect")
+		child := lr.Children[t.Choice(len(lr.Children))]
+		name = &buildqueuestate.InvocationName{SizeClassQueueName: qn, Ids: append(append([]*anypb.Any(nil), name.Ids...), child.Id)}
+		w.k.Probe("operator-descends-into-invocation")
+	}
+	var err error
+	switch t.Choice(6) {
+	case 0:
+		// Queued operations of that invocation, in pages of one or two.
+		var after *buildqueuestate.ListQueuedOperationsRequest_StartAfter
+		for page := 0; page < 4; page++ {
+			var lr *buildqueuestate.ListQueuedOperationsResponse
+			lr, err = w.bq.ListQueuedOperations(o.ctx, &buildqueuestate.ListQueuedOperationsRequest{InvocationName: name, PageSize: uint32(1 + t.Choice(2)), StartAfter: after})
+			desc += fmt.Sprintf(" queued-page=%d", len(lr.GetQueuedOperations()))
+			if err != nil || len(lr.QueuedOperations) == 0 {
+				break
+			}
+			last := lr.QueuedOperations[len(lr.QueuedOperations)-1]
+			after = &buildqueuestate.ListQueuedOperationsRequest_StartAfter{Priority: last.Priority, ExpectedDuration: last.ExpectedDuration, QueuedTimestamp: last.QueuedTimestamp}
+			if page > 0 {
+				w.k.Probe("operator-pages-through-queued-operations")
+			}
+			w.k.Yield("o-inspect")
+		}
+	case 1, 2:
+		// Workers executing for / parked at that invocation, one per page.
+		var after *buildqueuestate.ListWorkersRequest_StartAfter
+		executing := t.Bool(1, 2)
+		for page := 0; page < 3; page++ {
+			f := &buildqueuestate.ListWorkersRequest_Filter{Type: &buildqueuestate.ListWorkersRequest_Filter_IdleSynchronizing{IdleSynchronizing: name}}
+			if executing {
+				f = &buildqueuestate.ListWorkersRequest_Filter{Type: &buildqueuestate.ListWorkersRequest_Filter_Executing{Executing: name}}
+			}
+			var lr *buildqueuestate.ListWorkersResponse
+			lr, err = w.bq.ListWorkers(o.ctx, &buildqueuestate.ListWorkersRequest{Filter: f, PageSize: 1, StartAfter: after})
+			desc += fmt.Sprintf(" workers(executing=%v)=%d", executing, len(lr.GetWorkers()))
+			if err != nil || len(lr.Workers) == 0 {
+				break
+			}
+			if executing && len(lr.Workers) > 0 {
+				w.k.Probe("operator-lists-executing-workers-of-invocation")
+			}
+			after = &buildqueuestate.ListWorkersRequest_StartAfter{WorkerId: lr.Workers[len(lr.Workers)-1].Id}
+			w.k.Yield("o-inspect")
+		}
+	case 3:
+		opName := "no-such-operation"
+		if len(w.knownNames) > 0 && !t.Bool(1, 5) {
+			opName = pick(t, w.knownNames)
+		}
+		var gr *buildqueuestate.GetOperationResponse
+		gr, err = w.bq.GetOperation(o.ctx, &buildqueuestate.GetOperationRequest{OperationName: opName})
+		desc += fmt.Sprintf(" GetOperation(%s)=%v", opName, gr.GetOperation().GetStage())
+		if err == nil {
+			w.k.Probe("operator-gets-operation")
+		}
+	case 4:
+		// All operations, in small pages, optionally of one stage.
+		stage := pick(t, []remoteexecution.ExecutionStage_Value{remoteexecution.ExecutionStage_UNKNOWN, remoteexecution.ExecutionStage_QUEUED, remoteexecution.ExecutionStage_EXECUTING, remoteexecution.ExecutionStage_COMPLETED})
+		var after *buildqueuestate.ListOperationsRequest_StartAfter
+		for page := 0; page < 4; page++ {
+			var lr *buildqueuestate.ListOperationsResponse
+			lr, err = w.bq.ListOperations(o.ctx, &buildqueuestate.ListOperationsRequest{PageSize: uint32(1 + t.Choice(3)), StartAfter: after, FilterStage: stage})
+			desc += fmt.Sprintf(" operations(stage=%v)=%d", stage, len(lr.GetOperations()))
+			if err != nil || len(lr.Operations) == 0 {
+				break
+			}
+			after = &buildqueuestate.ListOperationsRequest_StartAfter{OperationName: lr.Operations[len(lr.Operations)-1].Name}
+			w.k.Yield("o-inspect")
+		}
+	case 5:
+		// Operations of the invocation reached above (any level).
+		var id *anypb.Any
+		if len(name.Ids) > 0 {
+			id = name.Ids[len(name.Ids)-1]
+		}
+		var lr *buildqueuestate.ListOperationsResponse
+		lr, err = w.bq.ListOperations(o.ctx, &buildqueuestate.ListOperationsRequest{PageSize: 100, FilterInvocationId: id})
+		desc += fmt.Sprintf(" operations(invocation filter=%v)=%d", id != nil, len(lr.GetOperations()))
+		if err == nil && id != nil && len(lr.Operations) > 0 {
+			w.k.Probe("operator-filters-operations-by-invocation")
+		}
+	}
+	return desc, err
 }
